@@ -242,10 +242,9 @@ theorem asset_core (env : ModelEnv) (fac : Factory) (k : Key) (mc nm : String) (
       simp only [bind, Except.bind, hloop]
       cases hk : k.toInt? with
       | none =>
-        rw [jInt_keyJ_none k hk]
-        refine ⟨fun r h => (by cases h), fun e h => ?_⟩
-        cases h
-        exact ⟨.valueError, rfl, by decide⟩
+        rcases jInt_keyJ_none' k hk with hj | hj <;> rw [hj] <;>
+          refine ⟨fun r h => (by cases h), fun e h => ?_⟩ <;> cases h <;>
+          exact ⟨.valueError, rfl, by decide⟩
       | some id =>
         rw [jInt_keyJ_some k id hk]
         have tie := add_asset_tie s env hfresh hfuel1
